@@ -126,7 +126,11 @@ class BroadcastTo(ArrayExpr):
             input_axis,
             shuffle_expr.operand("name"),
         )
-        return BroadcastTo(shuffled_input, self._shape, self._chunks, self._meta)
+        # The shuffle sets the extent and chunking of its axis (a take-style
+        # indexer may repeat or drop positions); every other axis is unchanged.
+        shape = self._shape[:axis] + (shuffle_expr.shape[axis],) + self._shape[axis + 1 :]
+        chunks = self._chunks[:axis] + (shuffle_expr.chunks[axis],) + self._chunks[axis + 1 :]
+        return BroadcastTo(shuffled_input, shape, chunks, self._meta)
 
     def _accept_slice(self, slice_expr):
         """Accept a slice being pushed through BroadcastTo.
